@@ -128,8 +128,26 @@ class SizeFilterPair(object):
             yield dict(l=l, r=r, t=rng.choice(THR), allow_missing=rng.random() < 0.5, allow_empty=rng.random() < 0.5)
 
     def check(self, case, a):
-        from py_stringmatching import WhitespaceTokenizer
+        from py_stringmatching import WhitespaceTokenizer, QgramTokenizer
         from py_stringsimjoin.filter.size_filter import SizeFilter
+        if case in ('EDIT_DISTANCE', 'OVERLAP'):
+            # integer thresholds: the counts alone decide
+            t = 1 + int(a['t'] * 3)
+            tok = QgramTokenizer(qval=2, padding=False) if case == 'EDIT_DISTANCE' else WhitespaceTokenizer(return_set=True)
+            f = SizeFilter(tok, case, t, a['allow_empty'], a['allow_missing'])
+            got = f.filter_pair(a['l'], a['r'])
+            if miss(a['l']) or miss(a['r']):
+                want = not a['allow_missing']
+            else:
+                x, y = len(tok.tokenize(a['l'])), len(tok.tokenize(a['r']))
+                if x == 0 and y == 0:
+                    want = (case == 'OVERLAP')
+                elif case == 'EDIT_DISTANCE':
+                    want = not (x - t <= y <= x + t)
+                else:
+                    want = not (t <= y)
+            return None if bool(got) == want else 'filter_pair(%r, %r) [%s %r] returned %r, expected %r' % (
+                a['l'], a['r'], case, t, got, want)
         M = measure_of(case)
         f = SizeFilter(WhitespaceTokenizer(return_set=True), M, a['t'], a['allow_empty'], a['allow_missing'])
         got = f.filter_pair(a['l'], a['r'])
